@@ -67,6 +67,15 @@ type SpecFn struct {
 	unfolding int
 }
 
+// WritersClause: a field that only the listed functions may store to (ownership of a representation field).
+type WritersClause struct {
+	Pkg         *types.Package
+	Props       []string
+	Type, Field string
+	Allowed     []string
+	Src, File   string
+}
+
 type Lemma struct {
 	Name      string
 	Pkg       *types.Package
@@ -80,7 +89,7 @@ type Lemma struct {
 	File      string
 }
 
-var clauseKW = regexp.MustCompile(`^(requires|ensures|modifies|loop|panics_iff|inline|trusted|use|induction|props|func|spec|pred|lemma|extern|devirt|at|ifacecontract|keeps|decreases)\b`)
+var clauseKW = regexp.MustCompile(`^(requires|ensures|modifies|loop|panics_iff|inline|trusted|use|induction|props|func|spec|pred|lemma|extern|devirt|at|ifacecontract|keeps|decreases|writers)\b`)
 
 // parseContracts reads every zz_verif_contracts*.go file of the loaded packages.
 func (e *Engine) parseContracts(pkgs []*packages.Package) error {
@@ -156,11 +165,13 @@ func (e *Engine) parseContractLines(pkg *types.Package, file string, lines []str
 			if err != nil {
 				return fmt.Errorf("%s:%d: %v", file, cl.line, err)
 			}
-			cur = &Contract{Key: key, Pkg: pkg, Header: rest, Loops: map[int]*LoopSpec{}, File: file, Line: cl.line}
 			curLemma = nil
-			if _, dup := e.contracts[key]; dup {
-				return fmt.Errorf("%s:%d: duplicate contract for %s", file, cl.line, key)
+			if prev, dup := e.contracts[key]; dup {
+				// a second block for the same function (another contract file of the package) adds clauses to the first
+				cur = prev
+				break
 			}
+			cur = &Contract{Key: key, Pkg: pkg, Header: rest, Loops: map[int]*LoopSpec{}, File: file, Line: cl.line}
 			e.contracts[key] = cur
 		case "extern":
 			// extern pkg.Func(a T, b U) result-type : assumed contract of a function outside the module
@@ -229,6 +240,28 @@ func (e *Engine) parseContractLines(pkg *types.Package, file string, lines []str
 				cur.Devirt = map[string]string{}
 			}
 			cur.Devirt[f[0]] = f[1]
+		case "writers":
+			// writers C03 C01: T.field: fnKey fnKey ...   (only the listed functions of the module store to that field)
+			colon := strings.Index(rest, ":")
+			if colon < 0 {
+				return fmt.Errorf("%s:%d: writers PROPS: Type.field: functions", file, cl.line)
+			}
+			w := &WritersClause{Pkg: pkg, Props: strings.Fields(rest[:colon]), Src: rest, File: file}
+			rest2 := strings.TrimSpace(rest[colon+1:])
+			colon2 := strings.Index(rest2, ":")
+			if colon2 < 0 {
+				return fmt.Errorf("%s:%d: writers PROPS: Type.field: functions", file, cl.line)
+			}
+			tf := strings.Split(strings.TrimSpace(rest2[:colon2]), ".")
+			if len(tf) != 2 {
+				return fmt.Errorf("%s:%d: writers: Type.field expected", file, cl.line)
+			}
+			w.Type, w.Field = tf[0], tf[1]
+			for _, f := range strings.Fields(rest2[colon2+1:]) {
+				w.Allowed = append(w.Allowed, pkg.Name()+"."+f)
+			}
+			e.writers = append(e.writers, w)
+			cur, curLemma = nil, nil
 		case "spec", "pred":
 			sp, err := parseSpec(pkg, kw, rest)
 			if err != nil {
@@ -358,7 +391,17 @@ func (e *Engine) parseContractLines(pkg *types.Package, file string, lines []str
 			}
 		case "props":
 			if cur != nil {
-				cur.Props = strings.Fields(rest)
+				for _, pr := range strings.Fields(rest) {
+					dup := false
+					for _, q := range cur.Props {
+						if q == pr {
+							dup = true
+						}
+					}
+					if !dup {
+						cur.Props = append(cur.Props, pr)
+					}
+				}
 			} else if curLemma != nil {
 				curLemma.Props = strings.Fields(rest)
 			}
@@ -393,6 +436,8 @@ func parseParams(s string) []SpecParam {
 			switch {
 			case p.TyS == "bool":
 				p.Kind = "bool"
+			case p.TyS == "iface":
+				p.Kind = "iface"
 			case strings.HasPrefix(p.TyS, "[]"):
 				p.Kind = "slice"
 			case strings.HasPrefix(p.TyS, "*"):
@@ -415,10 +460,15 @@ func parseParams(s string) []SpecParam {
 }
 
 func parseSpec(pkg *types.Package, kw, rest string) (*SpecFn, error) {
-	rec := false
+	rec, abstract := false, false
 	if strings.HasPrefix(rest, "rec ") {
 		rec = true
 		rest = strings.TrimSpace(rest[4:])
+	}
+	if strings.HasPrefix(rest, "abstract ") {
+		// an uninterpreted function: only "equal arguments give equal results" is known about it
+		rec, abstract = true, true
+		rest = strings.TrimSpace(rest[len("abstract "):])
 	}
 	i := strings.Index(rest, "(")
 	if i < 0 {
@@ -442,6 +492,12 @@ func parseSpec(pkg *types.Package, kw, rest string) (*SpecFn, error) {
 	}
 	sp := &SpecFn{Name: strings.TrimSpace(rest[:i]), Pkg: pkg, Params: parseParams(rest[i+1 : j]), Rec: rec, Result: "int"}
 	tail := strings.TrimSpace(rest[j+1:])
+	if abstract {
+		if kw == "pred" || tail == "bool" {
+			sp.Result = "bool"
+		}
+		return sp, nil
+	}
 	eq := strings.Index(tail, "=")
 	if eq < 0 {
 		return nil, fmt.Errorf("spec %s needs a body", sp.Name)
